@@ -2,7 +2,10 @@
 
 package verifrt
 
-import "unsafe"
+import (
+	"runtime"
+	"unsafe"
+)
 
 // Channel operations of the code under test in the World A build: the
 // instrumenter rewrites `<-ch` to Recv(ch) and `ch <- v` to Send(ch, v). A task
@@ -30,33 +33,43 @@ func Recv2[T any](ch <-chan T) (T, bool) {
 	if ch == nil {
 		panic("verifrt: receive from nil channel blocks forever (deadlock in the simulated program)")
 	}
-	select {
-	case v, ok := <-ch:
-		if ok && cap(ch) == 0 {
-			wake(chanKey(ch), true) // the sender that was parked on this rendezvous
-		}
-		SchedPoint(-7)
-		return v, ok
-	default:
-	}
-	if cap(ch) == 0 {
-		// Unbuffered: a rendezvous needs one side really parked in the runtime, or
-		// two polling sides would never meet. The task gives the baton away, is
-		// marked as parked on this channel and blocks for real; the partner's
-		// non-blocking attempt completes the operation and marks it runnable again.
-		me := parkBegin(chanKey(ch), false)
-		v, ok := <-ch
-		parkEnd(me)
-		return v, ok
-	}
+	unbuf := cap(ch) == 0
+	key := chanKey(ch)
 	for {
-		chanSpin()
 		select {
 		case v, ok := <-ch:
+			if ok && unbuf {
+				wake(key, true) // the sender that was parked on this rendezvous
+			}
 			SchedPoint(-7)
 			return v, ok
 		default:
 		}
+		if unbuf {
+			// Unbuffered: a rendezvous needs one side really parked in the runtime, or
+			// two polling sides would never meet.
+			if partnerMarked(key, true) {
+				// a sender is marked as parked here but has not reached the runtime yet (a
+				// goroutine switch right after its hand-over): let it get there and try again
+				noteRetry()
+				runtime.Gosched()
+				continue
+			}
+			if !partnerMarked(key, false) {
+				// nobody parked on this side yet (one parked task per channel and direction:
+				// the order in which the runtime serves them is then never in question):
+				// mark the task as parked, hand the baton on and block for real. The partner's
+				// non-blocking attempt completes the operation and marks it runnable again.
+				me := parkBegin(key, false)
+				if ParkRaceTest {
+					runtime.Gosched()
+				}
+				v, ok := <-ch
+				parkEnd(me)
+				return v, ok
+			}
+		}
+		chanSpin()
 	}
 }
 
@@ -68,29 +81,35 @@ func Send[T any](ch chan<- T, v T) {
 	if ch == nil {
 		panic("verifrt: send on nil channel blocks forever (deadlock in the simulated program)")
 	}
-	select {
-	case ch <- v:
-		if cap(ch) == 0 {
-			wake(chanKey(ch), false) // the receiver that was parked on this rendezvous
-		}
-		SchedPoint(-8)
-		return
-	default:
-	}
-	if cap(ch) == 0 {
-		me := parkBegin(chanKey(ch), true)
-		ch <- v
-		parkEnd(me)
-		return
-	}
+	unbuf := cap(ch) == 0
+	key := chanKey(ch)
 	for {
-		chanSpin()
 		select {
 		case ch <- v:
+			if unbuf {
+				wake(key, false) // the receiver that was parked on this rendezvous
+			}
 			SchedPoint(-8)
 			return
 		default:
 		}
+		if unbuf {
+			if partnerMarked(key, false) {
+				noteRetry()
+				runtime.Gosched()
+				continue
+			}
+			if !partnerMarked(key, true) {
+				me := parkBegin(key, true)
+				if ParkRaceTest {
+					runtime.Gosched()
+				}
+				ch <- v
+				parkEnd(me)
+				return
+			}
+		}
+		chanSpin()
 	}
 }
 
@@ -162,13 +181,46 @@ func parkBegin(key uintptr, send bool) int {
 			panic("verifrt: harness defect - schedulable caller not found")
 		}
 		if nAliveBase > 0 {
-			panic("verifrt: deadlock - every caller waits on a channel or lock that nobody will release")
+			panic(Deadlock{Msg: deadlockInfo("verifrt: deadlock - every caller waits on a channel or lock that nobody will release"), PollingSelect: selectPollers > 0})
 		}
 		to = mainTask
 	}
+	// whoever gets the baton now first lets this goroutine reach its blocking
+	// operation (see waitBaton): the order in which tasks are marked is then the
+	// order in which the runtime queued them, and a non-blocking attempt by the
+	// next task finds this one really parked
+	parkYield = true
 	handOver(me, to, -15)
 	return me
 }
+
+var parkYield bool
+
+// ParkRaceTest (self-test only, VERIF_PARKRACE=1): every parking goroutine loses
+// the processor between its hand-over and its blocking operation - the goroutine
+// switch the protocol above has to tolerate.
+var ParkRaceTest bool
+
+// partnerMarked: is a task marked as parked on key in the given direction?
+//
+//go:norace
+func partnerMarked(key uintptr, sender bool) bool {
+	if nBlocked == 0 {
+		return false
+	}
+	for i := nextID(-1); i >= 0; i = nextID(i) {
+		if blockedOn[i] == key && blockedSend[i] == sender {
+			return true
+		}
+	}
+	return false
+}
+
+// Retries counts non-blocking attempts repeated because the partner was marked but not parked yet.
+var Retries uint64
+
+//go:norace
+func noteRetry() { Retries++ }
 
 //go:norace
 func callersRunnable() bool {
@@ -180,17 +232,12 @@ func callersRunnable() bool {
 	return false
 }
 
-// parkEnd: the real operation has completed (a partner did it). The goroutine
-// runs without the baton here; normally the partner has already cleared the
-// mark, the check below only repairs the case of a goroutine switch inside
-// the few instructions between the hand-over and the blocking operation.
+// parkEnd: the real operation has completed - a partner did it and, holding the
+// baton, has cleared this task's mark (wake). The goroutine runs without the
+// baton here and therefore touches no scheduler state; it just waits for its turn.
 //
 //go:norace
 func parkEnd(me int) {
-	if blockedOn[me] != 0 {
-		blockedOn[me] = 0
-		nBlocked--
-	}
 	waitBaton(me)
 }
 
